@@ -1,0 +1,8 @@
+// +build verif
+
+package history
+
+/*@
+func MembershipProof.Verify
+  props C12
+@*/
